@@ -80,7 +80,7 @@ _NE = None
 def plan(tier):
     if tier == 'thorough':
         return dict(shards=16, cases=3600, timeout=2400, budget_s=560)
-    return dict(shards=8, cases=760, timeout=600, budget_s=70)
+    return dict(shards=8, cases=760, timeout=600, budget_s=64)
 
 
 # ----------------------------------------------------------------------
